@@ -37,6 +37,21 @@ class IntV:
 
 
 @dataclass(frozen=True)
+class BytesV:
+    """big-endian bytes of an int: `fixed` bytes wide, or (fixed None) as many bytes as the value needs"""
+    src: IntV
+    fixed: Optional[int]
+    order: str = "big"
+
+
+@dataclass(frozen=True)
+class BitLenV:
+    """value.bit_length() and the byte count derived from it: (bit_length + 7) // 8"""
+    src: IntV
+    bytes_needed: bool = False
+
+
+@dataclass(frozen=True)
 class ConstStr:
     s: str
 
@@ -69,6 +84,8 @@ class TextV:
     may_be_empty: bool = False
     prefix: str = ""
     history: Tuple[str, ...] = ()
+    parity: Optional[str] = None        # None (any length) | 'even' | 'odd'  -- what a test on len(text) & 1 has established
+    as_bytes: bool = False              # bytes.fromhex(text): the same digits, two per byte
 
 
 @dataclass(frozen=True)
@@ -326,12 +343,35 @@ class Evaluator:
                 else:
                     return Top("f-string part")
             return self.concat(parts)
+        if isinstance(n, ast.BoolOp) and isinstance(n.op, ast.Or) and len(n.values) == 2:
+            a, b = self.eval(n.values[0]), self.eval(n.values[1])
+            return self.or_text(a, b)
+        if isinstance(n, ast.IfExp) and isinstance(n.test, ast.Name) and isinstance(n.body, ast.Name) and n.test.id == n.body.id:
+            # t if t else '0'
+            return self.or_text(self.eval(n.body), self.eval(n.orelse))
         if isinstance(n, ast.IfExp):
             return Top("conditional expression")
         return Top(f"expression {type(n).__name__} not modelled")
 
+    @staticmethod
+    def or_text(a, b):
+        """a or b  for a digit text that is empty exactly for the value 0 and the literal '0'"""
+        if isinstance(a, StrV) and isinstance(b, ConstStr):
+            if not a.may_be_empty:
+                return a
+            if b.s == "0" and not (a.sign or a.prefix or a.suffix):
+                return replace(a, may_be_empty=False).note("or '0' (the empty text of 0 becomes '0')")
+            return Top(f"empty text replaced by {b.s!r}")
+        return Top("`or` of unmodelled operands")
+
     def concat(self, parts: List[object]):
         parts = [p for p in parts if not (isinstance(p, ConstStr) and p.s == "")]
+        if len(parts) == 2 and isinstance(parts[0], ConstStr) and isinstance(parts[1], TextV) and parts[0].s and set(parts[0].s) == {"0"} \
+                and not parts[1].prefix and not parts[1].as_bytes:
+            t = parts[1]
+            flip = {"even": "odd", "odd": "even", None: None}
+            par = flip[t.parity] if len(parts[0].s) % 2 else t.parity
+            return replace(t, parity=par, history=t.history + (f"{parts[0].s!r} + text (leading zeros)",))
         if not parts:
             return ConstStr("")
         if any(isinstance(p, Top) for p in parts):
@@ -374,6 +414,12 @@ class Evaluator:
             return self.concat([ConstStr(m.group(1)), body, ConstStr(m.group(5))])
         if isinstance(n.op, ast.Add) and (isinstance(l, (StrV, ConstStr)) and isinstance(r, (StrV, ConstStr))):
             return self.concat([l, r])
+        if isinstance(n.op, ast.Add) and isinstance(l, ConstStr) and isinstance(r, TextV):
+            return self.concat([l, r])
+        if isinstance(l, BitLenV) and not l.bytes_needed and isinstance(r, IntV) and r.lo == r.hi == 7 and isinstance(n.op, ast.Add):
+            return ("bitlen+7", l)
+        if isinstance(l, tuple) and l and l[0] == "bitlen+7" and isinstance(r, IntV) and r.lo == r.hi == 8 and isinstance(n.op, ast.FloorDiv):
+            return BitLenV(l[1].src, True)
         if isinstance(l, IntV) and isinstance(r, IntV):
             try:
                 if isinstance(n.op, ast.Add):
@@ -474,6 +520,22 @@ class Evaluator:
                     return a if a.lo >= 0 else IntV(0, max(abs(a.lo), abs(a.hi)))
                 return args[0]
             return Top(f"call of {name} not modelled")
+        if isinstance(f, ast.Attribute) and isinstance(f.value, ast.Name) and f.value.id == "bytes" and f.attr == "fromhex" and len(n.args) == 1:
+            t = self.eval(n.args[0])
+            if isinstance(t, TextV) and not t.prefix and not t.may_be_empty and not t.as_bytes:
+                if t.parity != "even":
+                    return Top("bytes.fromhex of a text whose length may be odd (ValueError)")
+                return replace(t, as_bytes=True, history=t.history + ("bytes.fromhex()",))
+            return Top("bytes.fromhex of an unmodelled value")
+        if isinstance(f, ast.Attribute) and isinstance(f.value, ast.Name) and f.value.id == "int" and f.attr == "from_bytes" and 1 <= len(n.args) <= 2:
+            b = self.eval(n.args[0])
+            order = self.eval(n.args[1]) if len(n.args) == 2 else None
+            for k in n.keywords:
+                if k.arg == "byteorder":
+                    order = self.eval(k.value)
+            if isinstance(b, TextV) and b.as_bytes and isinstance(order, ConstStr) and order.s == "big":
+                return ParsedV(16, replace(b, as_bytes=False), None, ("int.from_bytes(bytes.fromhex(text), 'big')",))
+            return Top("int.from_bytes of an unmodelled value")
         if isinstance(f, ast.Attribute):
             recv = self.eval(f.value)
             args = [self.eval(a) for a in n.args]
@@ -484,6 +546,28 @@ class Evaluator:
                     return Top("str.format not modelled")
                 body = format_int(args[0], m.group(2) or "", "str.format")
                 return self.concat([ConstStr(m.group(1)), body, ConstStr(m.group(3))])
+            if isinstance(recv, IntV) and f.attr == "bit_length" and not args:
+                return BitLenV(recv)
+            if isinstance(recv, IntV) and f.attr == "to_bytes" and 1 <= len(args) <= 2:
+                order = args[1] if len(args) == 2 else None
+                for k in n.keywords:
+                    if k.arg == "byteorder":
+                        order = self.eval(k.value)
+                if not (isinstance(order, ConstStr) and order.s == "big"):
+                    return Top("to_bytes with a byte order other than 'big'")
+                if isinstance(args[0], IntV) and args[0].lo == args[0].hi:
+                    if recv.hi >= 1 << (8 * args[0].lo) or recv.lo < 0:
+                        return Top("to_bytes may overflow")
+                    return BytesV(recv, args[0].lo)
+                if isinstance(args[0], BitLenV) and args[0].bytes_needed and args[0].src == recv and recv.lo >= 0:
+                    return BytesV(recv, None)
+                return Top("to_bytes with an unmodelled length")
+            if isinstance(recv, BytesV) and f.attr == "hex" and not args:
+                if recv.fixed is not None:
+                    return StrV(16, "lower", "", "", 2 * recv.fixed, "0", True, False, 0, "", recv.src.lo, recv.src.hi, (f"to_bytes({recv.fixed}).hex(): {2 * recv.fixed} digits",))
+                # as many bytes as needed: two digits per byte, nothing for 0
+                return StrV(16, "lower", "", "", 2, "0", True, recv.src.lo <= 0, 0, "", recv.src.lo, recv.src.hi,
+                            ("to_bytes(minimal).hex(): two digits per byte (a leading 0 when the digit count is odd), '' for 0",))
             if isinstance(recv, Top):
                 return recv
             if isinstance(recv, ConstStr) and f.attr == "join":
